@@ -27,9 +27,11 @@ import (
 	"fmt"
 	"math"
 	"math/rand/v2"
+	"os"
 	"reflect"
 	"strconv"
 	"strings"
+	"time"
 	"unsafe"
 
 	"github.com/paulsonkoly/chess-3/board"
@@ -575,12 +577,24 @@ func (e *env) suiteC(rounds int) {
 	}
 }
 
+var tStart = time.Now()
+
+// timed runs f and, when VERIF_TIMING is set, reports the wall time since the previous mark on stderr.
+func timed(name string, f func()) {
+	f()
+	if os.Getenv("VERIF_TIMING") != "" {
+		fmt.Fprintf(os.Stderr, "timing %s %.1fs\n", name, time.Since(tStart).Seconds())
+	}
+	tStart = time.Now()
+}
+
 func main() {
 	c := common.Parse()
 	e := &env{c: c}
 	e.r = common.NewResult(c, "tunereval", prop)
 	e.r.Rule = "A: valid position with non-zero float evaluation (float vs int envelope, float vs exact-rational model); " +
-		"B: sigmoid argument inside the table 0..99; C: (struct, target subset) with at least one selected parameter"
+		"B: sigmoid argument inside the table 0..99; C: (struct, target subset) with at least one selected parameter; " +
+		"D1: float operation whose result is none of x, y, 0; D3: valid position whose float evaluation is not an integer (compared bit for bit with the float model)"
 	e.m = common.StartModel(c.Driver)
 	defer e.m.Close()
 	e.cells, e.names = layout()
@@ -591,8 +605,15 @@ func main() {
 	e.suiteB()
 	e.suiteC(c.Pick(300, 3000))
 	e.suiteA(total)
+	// float side (float.go): architecture, IEEE arithmetic unit test, sigmoid hand-over, bit-for-bit evaluation
+	timed("A+B+C", func() {})
+	e.suiteD0()
+	timed("D1", func() { e.suiteD1(c.Pick(40000, 400000)) })
+	timed("D2", func() { e.suiteD2(32768) })
+	timed("D3", func() { e.suiteD3(c.Pick(5000, 150000)) })
 	e.r.Notes = append(e.r.Notes,
 		"suite B discharges the hypothesis TableNear of int_vs_exact numerically (outside Lean), through the real sigmoidal[float64] and sigm table",
-		"IEEE-754 rounding and math.Exp are measured here, not proved: see the max|float-exactQ| no-sigmoid histogram entry (pico-centipawns)")
+		"IEEE-754 rounding and math.Exp are measured here, not proved: see the max|float-exactQ| no-sigmoid histogram entry (pico-centipawns)",
+		"suite D ties the Lean float model (Model/F64.lean, Model/EvalF.lean opsF) to Eval[float64] bit for bit; D2 hands Go's float sigmoid over to the driver, which checks TableNear in exact rationals")
 	e.r.Write(c)
 }
